@@ -294,7 +294,7 @@ def r08d(ctx):
                 for lp in loops:
                     if lp[2][0] == 'elem':          # for n in <component>
                         group = lp[2]
-                if group is None:
+                if group is None and any(need.values()):
                     raise AnalysisError('R08d: width-group loop of build_shared_features_map '
                                         'not found')
                 for k in need:
@@ -323,14 +323,18 @@ def r08d(ctx):
                                f'activation after the last layer) gets a trainable masker and '
                                f'the output width can be pruned', where(bs, e.node))
                 if is_frozen:
-                    # some test among the three is true
-                    ok = bool(conds) and (True in pol)
+                    # keeping a width is never what prunes a layer away: a frozen masker may
+                    # also be created for another reason (a group whose width nothing defines);
+                    # what matters is that the trainable class is excluded from the three cases
+                    ok = True
                     seen['frozen'] += 1
                 else:
                     ok = all(need.values()) and pol == {False}
                     seen['plain'] += 1
                 ctx.ob('R08d', f'build_shared_features_map creates {repo.classes[c].name}', ok,
-                       ('frozen masker on an input/output-connected group' if is_frozen else
+                       (('frozen masker on an input/output-connected group'
+                         if conds and True in pol else
+                         'frozen masker for a group kept for another reason') if is_frozen else
                         'trainable masker only when the group touches no input, output or '
                         'output-connected node') if ok else
                        (f'{repo.classes[c].name} is created under conditions '
@@ -390,8 +394,14 @@ def r08f(ctx, rule='R08f'):
     repo = ctx.repo
     fn = repo.fn('pit.graph.build_shared_features_map')
 
+    nnp = Obj('pkg')
+    for _t in ('Conv1d', 'Conv2d', 'Linear', 'BatchNorm1d', 'BatchNorm2d', 'ReLU', 'Module'):
+        nnp.attrs[_t] = Token('cls:' + _t)
+    TYPE_OF = {'def': 'Conv2d', 'dw': 'Conv2d', 'prop': 'ReLU'}
+
     def build(spec, out_pred):
-        """spec: name -> (kind, [input names]); kinds: in, def, prop, cat"""
+        """spec: name -> (kind, [input names]); kinds: in, def (convolution), prop (activation),
+        cat, dw (depthwise convolution: a layer that propagates the width of its input)"""
         nodes = {}
         for name, (kind, _ins) in spec.items():
             o = Obj('Node')
@@ -401,9 +411,10 @@ def r08f(ctx, rule='R08f'):
                             'meta': {'untouchable': False,
                                      'features_concatenate': kind == 'cat',
                                      'features_defining': kind == 'def',
-                                     'features_propagating': kind == 'prop',
+                                     'features_propagating': kind in ('prop', 'dw'),
                                      'flatten': False, 'squeeze': False, 'unsqueeze': False,
-                                     'tensor_meta': tm}, '_kind': kind})
+                                     'tensor_meta': tm}, '_kind': kind,
+                            '_type': nnp.attrs.get(TYPE_OF.get(kind, ''))})
             nodes[name] = o
         out = Obj('Node')
         tmo = Obj('TensorMeta')
@@ -495,9 +506,28 @@ def r08f(ctx, rule='R08f'):
         'channel concatenation followed by an activation':
             ({'x': ('in', []), 's': ('def', ['x']), 'a': ('def', ['s']), 'b': ('def', ['s']),
               'cat': ('cat', ['a', 'b']), 'r': ('prop', ['cat'])}, 'r', ['a', 'b']),
+        # a depthwise layer takes its masker from its input; a concatenation has none to give
+        'channel concatenation feeding a depthwise convolution':
+            ({'x': ('in', []), 's': ('def', ['x']), 'a': ('def', ['s']), 'b': ('def', ['s']),
+              'cat': ('cat', ['a', 'b']), 'dw': ('dw', ['cat']), 'r': ('prop', ['dw']),
+              'c2': ('def', ['r']), 'r2': ('prop', ['c2'])}, 'r2', ['c2'], ['dw', 'a', 'b']),
+        'channel concatenation, activation, depthwise convolution':
+            ({'x': ('in', []), 's': ('def', ['x']), 'a': ('def', ['s']), 'b': ('def', ['s']),
+              'cat': ('cat', ['a', 'b']), 'r0': ('prop', ['cat']), 'dw': ('dw', ['r0']),
+              'c2': ('def', ['dw']), 'r2': ('prop', ['c2'])}, 'r2', ['c2'], ['dw', 'a', 'b']),
+        # ... while a concatenation feeding an ordinary convolution leaves its inputs searchable
+        'channel concatenation feeding a convolution':
+            ({'x': ('in', []), 's': ('def', ['x']), 'a': ('def', ['s']), 'b': ('def', ['s']),
+              'cat': ('cat', ['a', 'b']), 'c2': ('def', ['cat']), 'r2': ('prop', ['c2'])},
+             'r2', ['c2'], []),
+        'depthwise convolution after a convolution':
+            ({'x': ('in', []), 's': ('def', ['x']), 'a': ('def', ['s']), 'dw': ('dw', ['a']),
+              'c2': ('def', ['dw']), 'r2': ('prop', ['c2'])}, 'r2', ['c2'], []),
     }
     n = 0
-    for label, (spec, out_pred, must_freeze) in worlds.items():
+    for label, wd in worlds.items():
+        spec, out_pred, must_freeze = wd[:3]
+        tied = wd[3] if len(wd) > 3 else None
         nodes, out, allnodes, edges = build(spec, out_pred)
         g = Obj('DiGraph')
         g.attrs.update({'_nodes': list(allnodes), '_edges': set(edges)})
@@ -518,6 +548,10 @@ def r08f(ctx, rule='R08f'):
             'nx': nx, 'fx': fxp, 'cast': Token('cast', lambda _t, v: v),
             'PITFrozenFeaturesMasker': Token('Frozen', lambda *_a: 'FROZEN'),
             'PITFeaturesMasker': Token('Plain', lambda *_a: 'PLAIN'),
+            'nn': nnp,
+            'is_layer': Token('is_layer', lambda nd, _m, types: isinstance(nd, Obj) and any(
+                nd.attrs.get('_type') is t for t in (types if isinstance(types, (tuple, list))
+                                                     else (types,)))),
         }
         # the other functions of the module (steps the function may be split into)
         for st in fn.module.tree.body:
@@ -541,7 +575,26 @@ def r08f(ctx, rule='R08f'):
                f'{out_pred}) but get {[got[k] for k in bad]}: their masks are trainable NAS '
                f'parameters, the search can prune them and export() then returns a network with '
                f'fewer output features than the model it was searched from', where(fn))
-    ctx.floor(rule, 'graph worlds', n, 4)
+        if tied is None:
+            continue
+        # every layer that reads a masker gets one, and a width group whose masker cannot be
+        # searched (no node of it defines the width) is kept together with the tensors
+        # concatenated into it; groups that do define their width stay searchable
+        val = {name: next((v for k, v in res.items() if k is nodes[name]), None)
+               for name in spec if spec[name][0] in ('def', 'dw')}
+        none = sorted(k for k, v in val.items() if v is None)
+        loose = sorted(k for k in tied if val.get(k) != 'FROZEN') if tied else []
+        okw = not none and not loose
+        ctx.ob(rule, f'every masked layer gets a masker: {label}', okw,
+               f'maskers {val}' if okw else
+               (f'layer(s) {none} read a features masker but the map gives them None: the '
+                f'converted model raises at its first forward pass' if none else
+                f'layer(s) {loose} get {[val.get(k) for k in loose]}: the depthwise layer behind '
+                f'the concatenation has no searchable masker of its own, so its width and the '
+                f'widths concatenated into it must be kept together (export would otherwise '
+                f'build a depthwise layer whose channels differ from its input)'),
+               where(fn))
+    ctx.floor(rule, 'graph worlds', n, 8)
 
 
 def run(ctx):
@@ -553,6 +606,17 @@ def run(ctx):
     # the minimal receptive field is exported too (shared with C01 R01e)
     from .c01 import pad_guard_rule
     pad_guard_rule(ctx, 'R08g')
+    # R08h "export() therefore always succeeds ... with layer sizes equal to those summary()
+    # reports": the minimal architecture R08a-c guarantee (one feature, one tap) is also sliced
+    # correctly -- every subscript of export uses the layer mask of its axis, as a boolean mask
+    # or as a rank-stable index (an index squeezed without an axis becomes 0-dimensional exactly
+    # at the keep-alive minimum and drops the sliced axis) -- and the constructor receives the
+    # searched sizes (C01's export rules, shared)
+    from . import c01
+    before = len(ctx.obligations)
+    c01.r01_export(ctx, c01.pit_layer_classes(ctx.repo))
+    for o in ctx.obligations[before:]:
+        o.rule = 'R08h'
     # which layers share a masker -- and therefore which layers are frozen with the group that
     # touches the network interface, and which keep the width of their producer -- is decided by
     # the op classification and by the sharing graph built from it (C09): a depthwise layer
